@@ -115,6 +115,8 @@ def arrive_in_place(df, mesh, emb, salt):
     import os
 
     route = salt % 6
+    if mesh.region.ndim >= 2 and int(mesh.n[0]) != int(mesh.n[1]) and salt % 3 == 0:
+        route = 5   # the quarter turn is the route on which cell counts and cell sizes change places: take it more often
     regs = [mesh.region] + list(mesh.subregions.values())
     if route < 3 or os.environ.get("VERIF_ARRIVE", "1") != "1" or any(r.pmin.dtype.kind != "f" or r.pmax.dtype.kind != "f" for r in regs):
         ARRIVALS["direct"] += 1
